@@ -58,7 +58,10 @@ from ._util_A import (
     require_members,
     resolves_to,
     same,
+    scoped_binding,
+    shadowed,
     single_origin,
+    split_dot,
     strip_await,
     tag_canon,
 )
@@ -104,32 +107,223 @@ def _is_param(f, e, name, nid=None) -> bool:
 
 
 # =========================================================================== R1
+#
+# The ordering obligation: whatever `_process_output` emits for a loop instance is selected from the
+# collected tokens `self.token_map[<tag parameter>]` by an ordering whose key is the *integer* value of the
+# last tag component.  The rule recognises the equivalent formulations of such an ordering
+# (sorted / list.sort in place / max / min, order-preserving copies, reversed views, key helpers) and reports
+# every output that is not provably built that way as a violation of the obligation (it does not refuse a
+# shape it cannot read: the anchor is present, the obligation is what is missing).
 
 
-def _iteration_key(f, keyf):
-    """('ok'|'bad'|'unknown', msg) for the key= of the iteration sort."""
+def _key_body(f, keyf):
+    """(parameter name, returned expression) of a key function given as a lambda or as a local / module-level
+    single-return helper; None when it cannot be read."""
+    if isinstance(keyf, ast.Lambda):
+        ps = [a.arg for a in keyf.args.posonlyargs + keyf.args.args]
+        return (ps[0], keyf.body) if len(ps) == 1 else None
+    if isinstance(keyf, ast.Name):
+        cands = [n for n in ast.walk(f.node) if isinstance(n, ast.FunctionDef) and n.name == keyf.id and n is not f.node]
+        if not cands:
+            cands = [n for n in f.module.tree.body if isinstance(n, ast.FunctionDef) and n.name == keyf.id]
+        if len(cands) != 1:
+            return None
+        d = cands[0]
+        ps = [a.arg for a in d.args.posonlyargs + d.args.args]
+        body = [st for st in d.body if not (isinstance(st, ast.Expr) and isinstance(st.value, ast.Constant)) and not isinstance(st, ast.Pass)]
+        if len(ps) == 1 and len(body) == 1 and isinstance(body[0], ast.Return) and body[0].value is not None:
+            return ps[0], body[0].value
+    return None
+
+
+def _elem_tag(x, param) -> bool:
+    return isinstance(x, ast.Attribute) and x.attr == "tag" and isinstance(x.value, ast.Name) and x.value.id == param
+
+
+def _int_components(f, body, param) -> bool:
+    """[int(c) for c in P.tag.split('.')] / tuple(int(c) for ...) / list(map(int, P.tag.split('.'))): numeric
+    comparison of all components (the instance prefix is common, so the iteration number decides)."""
+    for w in ("list", "tuple"):
+        c = builtin_call(f, body, w)
+        if c is not None and len(c.args) == 1 and not c.keywords:
+            body = c.args[0]
+            break
+    m = builtin_call(f, body, "map")
+    if m is not None and len(m.args) == 2 and isinstance(m.args[0], ast.Name) and m.args[0].id == "int" and not shadowed(f, "int"):
+        x = split_dot(m.args[1])
+        return x is not None and _elem_tag(x, param)
+    if isinstance(body, (ast.ListComp, ast.GeneratorExp)) and len(body.generators) == 1:
+        gen = body.generators[0]
+        i = builtin_call(f, body.elt, "int")
+        if i is not None and len(i.args) == 1 and isinstance(gen.target, ast.Name) and same(i.args[0], gen.target) and not gen.ifs and not gen.is_async:
+            x = split_dot(gen.iter)
+            return x is not None and _elem_tag(x, param)
+    return False
+
+
+def _iteration_key(f, keyf, fn: str = "sorted"):
+    """(ok, negated, msg) for the key= of the iteration ordering `fn`."""
     if keyf is None:
-        return "bad", "sorted() without key: tokens are not ordered by iteration"
-    if not isinstance(keyf, ast.Lambda):
-        return "unknown", f"sort key `{unparse(keyf)}` is not a lambda"
-    ps = [a.arg for a in keyf.args.posonlyargs + keyf.args.args]
-    if len(ps) != 1:
-        return "unknown", "sort key lambda does not take one argument"
-    body = keyf.body
+        return False, False, f"{fn}() without key: tokens are not ordered by iteration number"
+    kb = _key_body(f, keyf)
+    if kb is None:
+        return False, False, f"{fn}() key `{unparse(keyf)}` is not recognisable as int(<last tag component of the element>)"
+    param, body = kb
+    negated = False
+    while isinstance(body, ast.UnaryOp) and isinstance(body.op, (ast.USub, ast.UAdd)):
+        negated ^= isinstance(body.op, ast.USub)
+        body = body.operand
+    if _int_components(f, body, param):
+        return True, negated, ""
     i = builtin_call(f, body, "int")
-    if i is None or len(i.args) != 1:
+    if i is None or len(i.args) != 1 or i.keywords:
         comp = last_component(f, body)
         if comp is not None or (isinstance(body, ast.Attribute) and body.attr == "tag"):
-            return "bad", f"sort key `{unparse(body)}` orders iterations as text (10 before 2)"
-        if any(builtin_call(f, x, "int") is not None for x in ast.walk(body)):
-            return "unknown", f"sort key `{unparse(body)}`: unsupported numeric shape"
-        return "bad", f"sort key `{unparse(body)}` is not int(<last tag component>)"
+            return False, negated, f"{fn}() key `{unparse(body)}` orders iterations as text (10 before 2, 9 after 10)"
+        return False, negated, f"{fn}() key `{unparse(body)}` is not int(<last tag component>)"
     x = last_component(f, i.args[0])
     if x is None:
-        return "bad", f"sort key `{unparse(body)}` does not take the last tag component (the iteration number)"
-    if not (isinstance(x, ast.Attribute) and x.attr == "tag" and isinstance(x.value, ast.Name) and x.value.id == ps[0]):
-        return "bad", f"sort key reads `{unparse(x)}`, not the tag of the element"
-    return "ok", ""
+        return False, negated, f"{fn}() key `{unparse(body)}` does not take the last tag component (the iteration number)"
+    if not _elem_tag(x, param):
+        return False, negated, f"{fn}() key reads `{unparse(x)}`, not the tag of the element"
+    return True, negated, ""
+
+
+def _at(f, e, dflt):
+    n = nid_of(f, e)
+    return dflt if n is None else n
+
+
+def _inplace_sorts(f, name: str):
+    """[(Call `name.sort(...)`, CFG node id)] anywhere in f."""
+    out = []
+    for n in f.cfg.nodes.values():
+        for c in n.calls():
+            if method_call(c, "sort") is not None and isinstance(c.func.value, ast.Name) and c.func.value.id == name:
+                out.append((c, n.id))
+    return out
+
+
+class _View:
+    """What a sequence expression denotes: kind 'ordered' (call = sorted(...)/x.sort(...), inner = its input),
+    'map' (self.token_map[key]), 'empty' (literal empty sequence) or 'other' (why)."""
+
+    def __init__(self, kind, flipped=False, call=None, fn=None, inner=None, key=None, why=""):
+        self.kind, self.flipped, self.call, self.fn, self.inner, self.key, self.why = kind, flipped, call, fn, inner, key, why
+
+
+def _view(f, e, nid, depth: int = 10) -> _View:
+    """Peel order-preserving copies (list/tuple/[:]/.copy()/identity comprehension), order-reversing views
+    (reversed / [::-1]) and local names from `e` (evaluated at CFG node `nid`)."""
+    flipped = False
+    while depth > 0:
+        depth -= 1
+        e = strip_await(e)
+        if isinstance(e, ast.NamedExpr):
+            e = e.value
+            continue
+        if isinstance(e, ast.IfExp):
+            return _View("other", flipped, why=f"`{unparse(e)}` is chosen conditionally")
+        if isinstance(e, ast.Name):
+            if scoped_binding(e) is not None or nid is None:
+                return _View("other", flipped, why=f"`{e.id}` is not a collected-token sequence")
+            ds = rdefs(f, e.id, nid, use=e)
+            plain = len(ds) == 1 and ds[0].kind in ("assign", "walrus") and ds[0].index is None
+            sorts = _inplace_sorts(f, e.id)
+            if sorts:
+                here = [(c, sn) for c, sn in sorts if sn != nid and f.cfg.dominates(sn, nid)
+                        and {d.key() for d in rdefs(f, e.id, sn, use=c.func.value)} == {d.key() for d in ds}]
+                if len(sorts) == 1 and len(here) == 1 and plain:
+                    c, sn = here[0]
+                    return _View("ordered", flipped, call=c, fn=f"{e.id}.sort", inner=(ds[0].value, ds[0].nid))
+                return _View("other", flipped, why=f"`{e.id}` is sorted in place on some paths only / several times")
+            if plain:
+                e, nid = ds[0].value, ds[0].nid
+                continue
+            return _View("other", flipped, why=f"`{e.id}` has no single plain definition")
+        if isinstance(e, (ast.List, ast.Tuple)) and not e.elts:
+            return _View("empty", flipped)
+        mk = _self_map_key(e, "token_map")
+        if mk is not None:
+            return _View("map", flipped, key=(mk[0], nid))
+        c = builtin_call(f, e, "list") or builtin_call(f, e, "tuple")
+        if c is not None and len(c.args) == 1 and not c.keywords:
+            e = c.args[0]
+            continue
+        c = builtin_call(f, e, "reversed")
+        if c is not None and len(c.args) == 1 and not c.keywords:
+            flipped = not flipped
+            e = c.args[0]
+            continue
+        if isinstance(e, ast.Subscript) and isinstance(e.slice, ast.Slice) and e.slice.lower is None and e.slice.upper is None:
+            st = e.slice.step
+            if st is None or is_const(st, 1):
+                e = e.value
+                continue
+            if is_const(st, -1):
+                flipped = not flipped
+                e = e.value
+                continue
+        c = method_call(e, "copy")
+        if c is not None and not c.args and not c.keywords:
+            e = c.func.value
+            continue
+        if isinstance(e, ast.ListComp) and len(e.generators) == 1:
+            gen = e.generators[0]
+            if isinstance(gen.target, ast.Name) and same(e.elt, gen.target) and not gen.ifs and not gen.is_async:
+                e = gen.iter
+                continue
+        c = builtin_call(f, e, "sorted")
+        if c is not None:
+            if len(c.args) != 1:
+                return _View("other", flipped, why=f"`{unparse(c)}`: sorted() call shape")
+            return _View("ordered", flipped, call=c, fn="sorted", inner=(c.args[0], nid))
+        return _View("other", flipped, why=f"`{unparse(e)}` is not an ordered view of the collected tokens")
+    return _View("other", flipped, why="definition chain too deep")
+
+
+def _base_map(f, e, nid, depth: int = 4):
+    """The `self.token_map[K]` a sequence expression is a (re-ordered) view of: (K, nid) | None."""
+    while depth > 0:
+        depth -= 1
+        v = _view(f, e, nid)
+        if v.kind == "map":
+            return v.key
+        if v.kind == "ordered":
+            e, nid = v.inner
+            continue
+        return None
+    return None
+
+
+def _mentions_map(f, e, nid, depth: int = 6) -> bool:
+    """`e` (local names replaced by their reaching definitions) reads self.token_map."""
+    for x in ast.walk(e):
+        if dotted(x) == "self.token_map":
+            return True
+        if isinstance(x, ast.Name) and isinstance(x.ctx, ast.Load) and depth > 0 and nid is not None and scoped_binding(x) is None:
+            for d in rdefs(f, x.id, _at(f, x, nid), use=x):
+                if d.value is not None and d.nid is not None and d.nid != nid and _mentions_map(f, d.value, d.nid, depth - 1):
+                    return True
+    return False
+
+
+def _ordering(f, call, fn, nid):
+    """(key ok, ascending | None, msg) of an ordering call sorted(...)/x.sort(...)/max(...)/min(...)."""
+    kx = kwarg(call, "key")
+    cn = _at(f, call, nid)
+    ko = single_origin(f, kx, cn) if kx is not None else None
+    if kx is not None and ko is None:
+        ko = kx
+    ok, negated, msg = _iteration_key(f, ko, fn)
+    asc = not negated
+    rev = kwarg(call, "reverse")
+    if rev is not None:
+        rv = const_value(single_origin(f, rev, cn) or rev)
+        if not isinstance(rv, bool):
+            return ok, None, msg
+        asc = asc != rv
+    return ok, asc, msg
 
 
 def r1(ctx):
@@ -142,65 +336,107 @@ def r1(ctx):
         ps = [a for a in f.params if a != "self"]
         ctx.require(len(ps) == 1, f"C06.R1: {who}._process_output signature changed")
         tagp = ps[0]
-        rets = [n for n in f.body_nodes() if isinstance(n, ast.Return) and n.value is not None]
-        ctx.require(len(rets) == 1, f"C06.R1: {who}._process_output has {len(rets)} return statements (unsupported shape)")
-        rn = nid_of(f, rets[0].value)
-        o = single_origin(f, rets[0].value, rn)
-        ctx.require(o is not None, f"C06.R1: {who}: several origins of the returned token")
-        # classify the shape
-        shape, srt_expr, idx, tag_expr = None, None, None, None
-        if isinstance(o, ast.Call) and resolves_to(p, f, o, "streamflow.workflow.token.ListToken"):
-            shape = "all"
-            srt_expr = kwarg(o, "value", 0)
-            tag_expr = kwarg(o, "tag", 1)
-        elif (rt := method_call(o, "retag")) is not None:
-            shape = "last"
-            tag_expr = kwarg(rt, "tag", 0)
-            recv = single_origin(f, rt.func.value, rn)
-            if isinstance(recv, ast.Subscript) and not isinstance(recv.slice, ast.Slice):
-                srt_expr, idx = recv.value, const_value(recv.slice)
-            else:
-                ctx.require(False, f"C06.R1: {who}: retag receiver `{unparse(rt.func.value)}` is not an indexed sequence")
-        ctx.require(shape is not None, f"C06.R1: {who}._process_output returns `{unparse(o)}`: neither ListToken(...) nor <sorted>[i].retag(tag)")
-        for nm, want in (("Last", "last"), ("All", "all")):
-            if nm in who:
-                ctx.ob("R1", f"{who}: output shape matches the class ({want})", shape == want, func=f, node=rets[0], instance=f"{who}:shape",
-                       message=f"{who} builds the `{shape}` output")
-        so = single_origin(f, srt_expr, rn) if srt_expr is not None else None
-        srt = builtin_call(f, so, "sorted")
-        ok, msg = True, ""
-        ascending = True
-        if srt is None:
-            mk = _self_map_key(so, "token_map") if so is not None else None
-            ctx.require(mk is not None, f"C06.R1: {who}: `{unparse(so) if so is not None else None}` is neither sorted(...) nor self.token_map[...]")
-            ok, msg = False, "iterations are used in arrival order (no sorted())"
+        rets = sorted((n for n in f.body_nodes() if isinstance(n, ast.Return) and n.value is not None), key=lambda n: (n.lineno, n.col_offset))
+        ctx.require(len(rets) >= 1, f"C06.R1: {who}._process_output returns nothing")
+        outputs = []
+        for ret in rets:
+            rn = nid_of(f, ret.value)
+            for o in origin_at(f, ret.value, rn):
+                on = _at(f, o, rn)
+                if not _mentions_map(f, o, on):
+                    ctx.observe(f"C06.R1: {who}._process_output: `return {unparse(ret.value)}` does not read the collected tokens (placeholder output, no ordering obligation)")
+                    continue
+                if not any(same(o, o2) for _r, o2, _n in outputs):
+                    outputs.append((ret, o, on))
+        ctx.ob("R1", f"{who}: the output is built from the collected iterations", bool(outputs), func=f, node=rets[0], instance=f"{who}:source",
+               message="no return value reads self.token_map: the loop output does not depend on the iterations")
+        for k, (ret, o, on) in enumerate(outputs):
+            sfx = "" if k == 0 else f"#{k + 1}"
+            _check_output(ctx, f, who, tagp, ret, o, on, sfx)
+
+
+def _check_output(ctx, f, who, tagp, ret, o, on, sfx):
+    p = ctx.prog
+    shape, seq, tag_expr = None, None, None
+    sel, idx, sel_call = None, None, None  # last: 'index' (idx) | 'max' / 'min' (sel_call)
+    why = ""
+    if isinstance(o, ast.Call) and resolves_to(p, f, o, "streamflow.workflow.token.ListToken"):
+        shape = "all"
+        seq = kwarg(o, "value", 0)
+        tag_expr = kwarg(o, "tag", 1)
+        if seq is None:
+            why = "ListToken(...) without a value"
+    elif (rt := method_call(o, "retag")) is not None:
+        shape = "last"
+        tag_expr = kwarg(rt, "tag", 0)
+        rnid = _at(f, rt.func.value, on)
+        recv = single_origin(f, rt.func.value, rnid)
+        if recv is not None:
+            rnid = _at(f, recv, rnid)
+        if isinstance(recv, ast.Subscript) and not isinstance(recv.slice, ast.Slice):
+            sel, idx, seq = "index", const_value(single_origin(f, recv.slice, rnid) or recv.slice), recv.value
+        elif (mm := (builtin_call(f, recv, "max") or builtin_call(f, recv, "min"))) is not None and len(mm.args) == 1:
+            sel, sel_call, seq = mm.func.id, mm, mm.args[0]
         else:
-            ctx.require(len(srt.args) == 1, f"C06.R1: {who}: sorted() call shape")
-            seqs = origin_at(f, srt.args[0], rn)
-            seq_ok = bool(seqs) and all((mk := _self_map_key(s, "token_map")) is not None and _is_param(f, mk[0], tagp, rn) for s in seqs)
-            status, kmsg = _iteration_key(f, single_origin(f, kwarg(srt, "key"), rn) if kwarg(srt, "key") is not None else None)
-            rev = kwarg(srt, "reverse")
-            if rev is not None:
-                rv = const_value(rev)
-                ctx.require(isinstance(rv, bool), f"C06.R1: {who}: non-constant reverse=")
-                ascending = not rv
-            if not seq_ok:
-                ok, msg = False, f"sorted() is applied to `{unparse(srt.args[0])}`, not to self.token_map[{tagp}]"
-            elif status == "bad":
+            why = f"the retagged token `{unparse(rt.func.value)}` is not an element selected from the ordered iterations (<sorted>[i] / max(..., key=))"
+    else:
+        why = f"returns `{unparse(o)}`: neither ListToken(value=<ordered iterations>) nor <last iteration>.retag(tag)"
+    for nm, want in (("Last", "last"), ("All", "all")):
+        if nm in who:
+            ctx.ob("R1", f"{who}: output shape matches the class ({want})", shape == want, func=f, node=ret, instance=f"{who}:shape{sfx}",
+                   message=f"{who} builds the `{shape}` output" if shape else f"{who} {why}")
+    # ---- the ordering
+    ok, msg, asc = True, "", True
+    ordered = False
+    if seq is None:
+        ok, msg = False, why
+    else:
+        sn = _at(f, seq, on)
+        base = _base_map(f, seq, sn)
+        v = _view(f, seq, sn)
+        if base is None:
+            ok, msg = False, (v.why or f"`{unparse(seq)}` is not a view of self.token_map[{tagp}]")
+        elif not _is_param(f, base[0], tagp, base[1]):
+            ok, msg = False, f"the iterations are read from self.token_map[{unparse(base[0])}], not from self.token_map[{tagp}]"
+        elif sel in ("max", "min"):
+            kok, kasc, kmsg = _ordering(f, sel_call, sel, sn)
+            ordered = True
+            if not kok:
                 ok, msg = False, kmsg
-            elif status == "unknown":
-                ctx.require(False, f"C06.R1: {who}: {kmsg}")
-        ctx.ob("R1", f"{who}: iterations are sorted by int(last tag component)", ok, func=f, node=rets[0], instance=f"{who}:sort", message=msg)
-        if shape == "all":
-            ctx.ob("R1", f"{who}: the list is in ascending iteration order", ascending, func=f, node=rets[0], instance=f"{who}:order",
-                   message="sorted(..., reverse=True): iterations are listed last to first")
+            asc = kasc
+        elif v.kind == "ordered":
+            kok, kasc, kmsg = _ordering(f, v.call, v.fn, sn)
+            ordered = True
+            if not kok:
+                ok, msg = False, kmsg
+            asc = None if kasc is None else (kasc != v.flipped)
         else:
-            want_idx = -1 if ascending else 0
-            n_ok = idx == want_idx
-            ctx.ob("R1", f"{who}: the last iteration is element {want_idx} of the sort", n_ok, func=f, node=rets[0], instance=f"{who}:index",
-                   message=f"element [{idx}] of the {'ascending' if ascending else 'descending'} sort is not the last iteration")
-        ctx.ob("R1", f"{who}: the output carries the loop instance tag", tag_expr is not None and _is_param(f, tag_expr, tagp, rn), func=f, node=rets[0],
-               instance=f"{who}:tag", message=f"output is tagged `{unparse(tag_expr) if tag_expr is not None else '<default / iteration tag>'}` instead of the instance tag")
+            ok, msg = False, f"iterations are used in arrival order: `{unparse(seq)}` is not sorted by iteration number"
+            asc = not v.flipped
+    ctx.ob("R1", f"{who}: iterations are ordered by int(last tag component)", ok, func=f, node=ret, instance=f"{who}:sort{sfx}", message=msg)
+    if shape == "all":
+        ctx.ob("R1", f"{who}: the list is in ascending iteration order", asc is True, func=f, node=ret, instance=f"{who}:order{sfx}",
+               message="the ordering is descending (reverse=True / reversed / negated key): iterations are listed last to first" if asc is False
+               else "the direction of the ordering is not a constant (reverse=<expression>)")
+    elif shape == "last":
+        if sel in ("max", "min"):
+            picks_last = asc is not None and ((sel == "max") == asc)
+            ctx.ob("R1", f"{who}: the selected element is the greatest iteration number", picks_last, func=f, node=ret, instance=f"{who}:index{sfx}",
+                   message=f"{sel}(...) over {'an ascending' if asc else 'a negated'} key selects the first iteration, not the last" if asc is not None
+                   else "the direction of the ordering is not a constant")
+        elif sel == "index":
+            if asc is None:
+                ctx.ob("R1", f"{who}: the last iteration is selected from the sort", False, func=f, node=ret, instance=f"{who}:index{sfx}",
+                       message="the direction of the ordering is not a constant (reverse=<expression>)")
+            else:
+                want_idx = -1 if asc else 0
+                ctx.ob("R1", f"{who}: the last iteration is element {want_idx} of the sort", idx == want_idx, func=f, node=ret, instance=f"{who}:index{sfx}",
+                       message=f"element [{idx if idx is not NotImplemented else '<non-constant>'}] of the {'ascending' if asc else 'descending'} "
+                       f"{'sort' if ordered else 'sequence'} is not the last iteration")
+    if shape is not None:
+        tn = _at(f, tag_expr, on) if tag_expr is not None else on
+        ctx.ob("R1", f"{who}: the output carries the loop instance tag", tag_expr is not None and _is_param(f, tag_expr, tagp, tn), func=f, node=ret,
+               instance=f"{who}:tag{sfx}", message=f"output is tagged `{unparse(tag_expr) if tag_expr is not None else '<default / iteration tag>'}` instead of the instance tag")
 
 
 # =========================================================================== R2
@@ -576,6 +812,29 @@ VARIANTS = [
     V("All: reverse order", WFILE, _ALL, "key=lambda t: int(t.tag.split('.')[-1]))", "key=lambda t: int(t.tag.split('.')[-1]), reverse=True)", "R1"),
     V("Last: keeps the iteration tag", WFILE, _LAST, "[-1].retag(tag=tag)", "[-1].retag(tag=tag + '.0')", "R1"),
     V("All: list tagged with the default tag", WFILE, _ALL, "ListToken(tag=tag, value=", "ListToken(value=", "R1"),
+    V("Last: max() with the text key (seeded change 1)", WFILE, _LAST, "return sorted(self.token_map.get(tag, [Token(value=None)]), key=lambda t: int(t.tag.split('.')[-1]))[-1].retag(tag=tag)",
+      "return max(self.token_map.get(tag, [Token(value=None)]), key=lambda t: t.tag.split('.')[-1]).retag(tag=tag)", "R1", control=True),
+    V("All: list() copy in arrival order (seeded change 3)", WFILE, _ALL, "value=sorted(self.token_map.get(tag, []), key=lambda t: int(t.tag.split('.')[-1]))", "value=list(self.token_map.get(tag, []))", "R1"),
+    V("Last: min() selects the first iteration", WFILE, _LAST, "return sorted(self.token_map.get(tag, [Token(value=None)]), key=lambda t: int(t.tag.split('.')[-1]))[-1].retag(tag=tag)",
+      "return min(self.token_map.get(tag, [Token(value=None)]), key=lambda t: int(t.tag.split('.')[-1])).retag(tag=tag)", "R1"),
+    V("Last: max() without key", WFILE, _LAST, "return sorted(self.token_map.get(tag, [Token(value=None)]), key=lambda t: int(t.tag.split('.')[-1]))[-1].retag(tag=tag)",
+      "return max(self.token_map.get(tag, [Token(value=None)])).retag(tag=tag)", "R1"),
+    V("Last: last arrived token", WFILE, _LAST, "return sorted(self.token_map.get(tag, [Token(value=None)]), key=lambda t: int(t.tag.split('.')[-1]))[-1].retag(tag=tag)",
+      "return self.token_map.get(tag, [Token(value=None)])[-1].retag(tag=tag)", "R1"),
+    V("Last: value re-wrapped from an unordered element", WFILE, _LAST, "return sorted(self.token_map.get(tag, [Token(value=None)]), key=lambda t: int(t.tag.split('.')[-1]))[-1].retag(tag=tag)",
+      "return Token(tag=tag, value=self.token_map.get(tag, [Token(value=None)]).pop().value)", "R1"),
+    V("All: in-place sort with the text key", WFILE, _ALL, "    return ListToken(tag=tag, value=sorted(self.token_map.get(tag, []), key=lambda t: int(t.tag.split('.')[-1])))",
+      "    collected = list(self.token_map.get(tag, []))\n    collected.sort(key=lambda t: t.tag.split('.')[-1])\n    return ListToken(tag=tag, value=collected)", "R1"),
+    V("All: in-place sort on one path only", WFILE, _ALL, "    return ListToken(tag=tag, value=sorted(self.token_map.get(tag, []), key=lambda t: int(t.tag.split('.')[-1])))",
+      "    collected = list(self.token_map.get(tag, []))\n    if len(collected) > 10:\n        collected.sort(key=lambda t: int(t.tag.split('.')[-1]))\n    return ListToken(tag=tag, value=collected)", "R1"),
+    V("All: reversed view of the sort", WFILE, _ALL, "value=sorted(self.token_map.get(tag, []), key=lambda t: int(t.tag.split('.')[-1]))", "value=list(reversed(sorted(self.token_map.get(tag, []), key=lambda t: int(t.tag.split('.')[-1]))))", "R1"),
+    V("All: negated key", WFILE, _ALL, "key=lambda t: int(t.tag.split('.')[-1])", "key=lambda t: -int(t.tag.split('.')[-1])", "R1"),
+    V("All: key helper returns the text component", WFILE, _ALL, "    return ListToken(tag=tag, value=sorted(self.token_map.get(tag, []), key=lambda t: int(t.tag.split('.')[-1])))",
+      "    def iteration(t):\n        return t.tag.split('.')[-1]\n    return ListToken(tag=tag, value=sorted(self.token_map.get(tag, []), key=iteration))", "R1"),
+    V("All: sorts the tokens of another instance", WFILE, _ALL, "sorted(self.token_map.get(tag, []), key=", "sorted(self.token_map.get(tag[:-2], []), key=", "R1"),
+    V("All: only the first ten iterations", WFILE, _ALL, "value=sorted(self.token_map.get(tag, []), key=lambda t: int(t.tag.split('.')[-1]))", "value=sorted(self.token_map.get(tag, []), key=lambda t: int(t.tag.split('.')[-1]))[:10]", "R1"),
+    V("Last: output does not depend on the iterations", WFILE, _LAST, "return sorted(self.token_map.get(tag, [Token(value=None)]), key=lambda t: int(t.tag.split('.')[-1]))[-1].retag(tag=tag)",
+      "return Token(value=None, tag=tag)", "R1"),
     # R2
     V("run: size from len(tag)", SFILE, _RUN, "self.size_map[prefix] = int(token.tag.split('.')[-1])", "self.size_map[prefix] = len(token.tag.split('.'))", "R2", control=True),
     V("run: emission test only in the data branch", SFILE, _RUN,
@@ -625,6 +884,19 @@ VARIANTS = [
       "        if len(self.token_map.get(prefix, [])) == self.size_map.get(prefix, -1):\n            self.get_output_port().put(",
       "        complete = len(self.token_map.get(prefix, [])) == self.size_map.get(prefix, -1)\n        if complete:\n            self.get_output_port().put(", None),
     V("benign: run collects with setdefault", SFILE, _RUN, "            if prefix not in self.token_map:\n                self.token_map[prefix] = []\n            self.token_map[prefix].append(token)", "            self.token_map.setdefault(prefix, []).append(token)", None),
+    V("benign: Last via max() with the int key", WFILE, _LAST, "return sorted(self.token_map.get(tag, [Token(value=None)]), key=lambda t: int(t.tag.split('.')[-1]))[-1].retag(tag=tag)",
+      "return max(self.token_map.get(tag, [Token(value=None)]), key=lambda t: int(t.tag.split('.')[-1])).retag(tag=tag)", None),
+    V("benign: Last via min() with the negated int key and a temporary", WFILE, _LAST, "    return sorted(self.token_map.get(tag, [Token(value=None)]), key=lambda t: int(t.tag.split('.')[-1]))[-1].retag(tag=tag)",
+      "    candidates = self.token_map.get(tag, [Token(value=None)])\n    final = min(candidates, key=lambda t: -int(t.tag.rsplit('.', 1)[-1]))\n    return final.retag(tag)", None),
+    V("benign: All sorts a copy in place", WFILE, _ALL, "    return ListToken(tag=tag, value=sorted(self.token_map.get(tag, []), key=lambda t: int(t.tag.split('.')[-1])))",
+      "    collected = list(self.token_map.get(tag, []))\n    collected.sort(key=lambda t: int(t.tag.split('.')[-1]))\n    logger.debug(tag)\n    return ListToken(tag=tag, value=collected)", None),
+    V("benign: All copies the sorted list", WFILE, _ALL, "value=sorted(self.token_map.get(tag, []), key=lambda t: int(t.tag.split('.')[-1]))", "value=list(sorted(self.token_map.get(tag, [])[:], key=lambda t: int(t.tag.split('.')[-1])))", None),
+    V("benign: All descending sort viewed backwards", WFILE, _ALL, "value=sorted(self.token_map.get(tag, []), key=lambda t: int(t.tag.split('.')[-1]))", "value=sorted(self.token_map.get(tag, []), key=lambda t: int(t.tag.split('.')[-1]), reverse=True)[::-1]", None),
+    V("benign: All compares every tag component numerically", WFILE, _ALL, "key=lambda t: int(t.tag.split('.')[-1])", "key=lambda t: [int(c) for c in t.tag.split('.')]", None),
+    V("benign: Last with a local key helper", WFILE, _LAST, "    return sorted(self.token_map.get(tag, [Token(value=None)]), key=lambda t: int(t.tag.split('.')[-1]))[-1].retag(tag=tag)",
+      "    def iteration(t):\n        return int(t.tag.split('.')[-1])\n    return sorted(self.token_map.get(tag, [Token(value=None)]), key=iteration)[-1].retag(tag=tag)", None),
+    V("benign: Last with an early placeholder return", WFILE, _LAST, "    return sorted(self.token_map.get(tag, [Token(value=None)]), key=lambda t: int(t.tag.split('.')[-1]))[-1].retag(tag=tag)",
+      "    if tag not in self.token_map:\n        return Token(value=None, tag=tag)\n    return sorted(self.token_map[tag], key=lambda t: int(t.tag.split('.')[-1]))[-1].retag(tag=tag)", None),
     V("benign: LoopCombinatorStep guard rewritten with De Morgan", SFILE, _LR,
       "if not (task_name in terminated and len(self.iteration_termination_checklist[task_name]) == 0):",
       "if task_name not in terminated or len(self.iteration_termination_checklist[task_name]) > 0:", None),
